@@ -57,6 +57,7 @@ import re
 
 from vxlib.verusunit import Unit, FnSpec
 from vxlib.rustsrc import Source, Lost
+from contracts.deepcopy import INNER_FRAME
 from contracts import parser_funnel, lookups, elemcheck
 
 F = 'autosar-data/src/elementraw.rs'
@@ -501,11 +502,15 @@ impl ElementRaw {
     #[verifier::external_body]
     pub fn create_copied_sub_element_inner(&mut self, self_weak: WeakElement, other: &Element, position: usize, model: &AutosarModel, version: AutosarVersion) -> (r: Result<Element, AutosarDataError>)
         requires position <= old(self).content@.len()
-        ensures copied_inner_post(*old(self), *final(self), *other, position, version as u32, r)
+        ensures copied_inner_post(*old(self), *final(self), *other, position, version as u32, r),
+            // the two clauses below are proved on the real text of this function in unit deepcopy (C13), same wording
+            final(self).elemname == old(self).elemname && final(self).elemtype == old(self).elemtype,
+            %(INNER_FRAME0)s,
+            %(INNER_FRAME1)s
     { unimplemented!() }
 }
 pub struct AutosarModel { pub opaque: u64 }
-'''
+''' % dict(INNER_FRAME0=INNER_FRAME[0], INNER_FRAME1=INNER_FRAME[1])
     lf = {f.label: f for f in lookups.fns(sz)}
     TT = 'self.elemtype.typ < n_dt()'
     inv = ['vx_i <= self.content@.len()', 'wf_tables()', 'wf_modes()', 'self.elemtype.typ < n_dt()', 'elemtype == self.elemtype',
@@ -568,10 +573,14 @@ pub struct AutosarModel { pub opaque: u64 }
                            'forall|a: usize, b: usize| old(self).calc_post(element_name, %s, Ok((a, b))) && !(a <= position <= b) ==> r is Err && *final(self) == *old(self)' % V],
                   proofs=[dict(after=r'let \(start_pos, end_pos\) = self\.calc_element_insert_range\(element_name, version\)\?;', text=UNIQ % ('element_name', 'element_name'))]),
            FnSpec('create_copied_sub_element', F, impl=IMPL_R, ret='r', body_sub=R39, requires=['old(self).elemtype.typ < n_dt()'],
-                  ensures=['(r is Err && *final(self) == *old(self)) || exists|a: usize, b: usize| old(self).calc_post(name_of(*other), %s, Ok((a, b))) && copied_inner_post(*old(self), *final(self), *other, b, %s, r)' % (V, V)]),
+                  ensures=['(r is Err && *final(self) == *old(self)) || exists|a: usize, b: usize| old(self).calc_post(name_of(*other), %s, Ok((a, b))) && copied_inner_post(*old(self), *final(self), *other, b, %s, r)' % (V, V),
+                           'final(self).elemname == old(self).elemname && final(self).elemtype == old(self).elemtype',
+                           'match r { Ok(e) => exists|a: usize, b: usize| old(self).calc_post(name_of(*other), %s, Ok((a, b))) && final(self).content@ == old(self).content@.insert(b as int, ElementContent::Element(e)), Err(_) => final(self).content@ == old(self).content@ }' % V]),
            FnSpec('create_copied_sub_element_at', F, impl=IMPL_R, ret='r', body_sub=R39, requires=['old(self).elemtype.typ < n_dt()'],
                   ensures=['(r is Err && *final(self) == *old(self)) || exists|a: usize, b: usize| old(self).calc_post(name_of(*other), %s, Ok((a, b))) && a <= position <= b && copied_inner_post(*old(self), *final(self), *other, position, %s, r)' % (V, V),
-                           'forall|a: usize, b: usize| old(self).calc_post(name_of(*other), %s, Ok((a, b))) && !(a <= position <= b) ==> r is Err && *final(self) == *old(self)' % V],
+                           'forall|a: usize, b: usize| old(self).calc_post(name_of(*other), %s, Ok((a, b))) && !(a <= position <= b) ==> r is Err && *final(self) == *old(self)' % V,
+                           'final(self).elemname == old(self).elemname && final(self).elemtype == old(self).elemtype',
+                           'match r { Ok(e) => exists|a: usize, b: usize| old(self).calc_post(name_of(*other), %s, Ok((a, b))) && a <= position <= b && final(self).content@ == old(self).content@.insert(position as int, ElementContent::Element(e)), Err(_) => final(self).content@ == old(self).content@ }' % V],
                   proofs=[dict(after=r'let \(start_pos, end_pos\) = self\.calc_element_insert_range\(other_elemname, version\)\?;', text=UNIQ % ('other_elemname', 'other_elemname'))]),
            FnSpec('move_element_position', F, impl=IMPL_R, ret='r', body_sub=R50,
                   requires=['exists|i: int| 0 <= i < old(self).content@.len() && #[trigger] old(self).content@[i] == ElementContent::Element(*move_element)'],
